@@ -75,6 +75,7 @@ class EditError(Exception):
 
 
 def find(ini, section, key):
+    section = section.strip()          # blanks around a section name are not part of it ('[Pair ]' is [Pair])
     s = ini.section(section)
     if s is None:
         return None, None
@@ -105,6 +106,6 @@ def add(ini, section, key, value):
     if i is not None:
         raise EditError('exists')
     if s is None:
-        s = [section, []]
+        s = [section.strip(), []]
         ini.sections.append(s)
     s[1].append([norm(key), value])
